@@ -163,6 +163,15 @@ def handle (j : Json) : R Json := do
     let chunks ← (← fldArr j "chunks").mapM (fun c => do unhex (← c.getStr?))
     let L := lib (← parseOracle j "utf8") (← parseOracle j "json")
     let script ← (← fldArr j "script").mapM parseResult
+    let gone ← fld j "fail_after"
+    if !gone.isNull then
+      -- a socket on which only the first `n` calls of sendall succeed
+      let n ← gone.getNat?
+      let r := serveF tables L (scripted script) ⟨n, true⟩ [] 0 chunks
+      let one := serveF tables L (scripted script) ⟨n, true⟩ [] 0 [chunks.flatten]
+      return Json.mkObj [("outs", jarr (r.outs.map (outJson L))), ("ncalls", jnat r.st), ("done", jnat r.done),
+        ("calls", jarr ((callsOf tables L ((feedAll [] chunks).lines.take r.done)).map tripleJson)),
+        ("same_as_unsegmented", Json.bool ((wire L r.outs == wire L one.outs) && r.done == one.done && r.st == one.st))]
     let r := serve tables L (scripted script) [] 0 chunks
     let one := serve tables L (scripted script) [] 0 [chunks.flatten]
     return Json.mkObj [("outs", jarr (r.outs.map (outJson L))), ("rest", jhex r.buf), ("ncalls", jnat r.st),
@@ -176,6 +185,10 @@ def handle (j : Json) : R Json := do
       | [a, b] => return (← a.getBool?, ← b.getBool?)
       | _ => throw "bad flag entry")
     return Json.mkObj [("bad", verdictJson (judgeAll tables stream outs flags))]
+  | "judge_gone" =>
+    let stream ← fldHex j "stream"
+    let outs ← (← fldArr j "outs").mapM (fun c => do unhex (← c.getStr?))
+    return Json.mkObj [("bad", verdictJson (judgeGone tables stream outs))]
   | "judge_events" =>
     let outs ← (← fldArr j "outs").mapM (fun c => do unhex (← c.getStr?))
     let subs ← (← fldArr j "subscribed").mapM (fun c => do unhex (← c.getStr?))
